@@ -4,6 +4,17 @@ pub(crate) mod verif_common {
     use std::fmt;
     use std::time::Instant;
 
+    /// `rep12!(r, { body })`: the body for r = 0..12 WITHOUT a loop. Kani has one unwind bound per harness, so a harness
+    /// loop of 12 iterations would force every (nested) loop of the code under test to be unwound 13 times.
+    macro_rules! rep12 {
+        ($r:ident, $body:block) => {
+            { let $r: usize = 0; $body } { let $r: usize = 1; $body } { let $r: usize = 2; $body } { let $r: usize = 3; $body }
+            { let $r: usize = 4; $body } { let $r: usize = 5; $body } { let $r: usize = 6; $body } { let $r: usize = 7; $body }
+            { let $r: usize = 8; $body } { let $r: usize = 9; $body } { let $r: usize = 10; $body } { let $r: usize = 11; $body }
+        };
+    }
+    pub(crate) use rep12;
+
     /// Model of `console::measure_text_width` for the harness alphabet:
     /// ASCII printable -> 1 column, 2-byte sequences (representative: U+00E9) -> 1 column,
     /// 3-byte sequences (representative: U+4E16, CJK) -> 2 columns; no escape sequences.
@@ -46,6 +57,22 @@ pub(crate) mod verif_common {
 
     pub(crate) fn stub_false() -> bool {
         false
+    }
+
+    /// Stand-ins for std's float formatting (Grisu/Dragon, far beyond CBMC): harnesses that are not about a float-rendering
+    /// key never print a float; if one is printed after all, the marker text makes the harness's comparison fail.
+    pub(crate) fn fmt_f32_marker(_v: &f32, f: &mut fmt::Formatter<'_>) -> fmt::Result {
+        f.write_str("<f32>")
+    }
+    pub(crate) fn fmt_f64_marker(_v: &f64, f: &mut fmt::Formatter<'_>) -> fmt::Result {
+        f.write_str("<f64>")
+    }
+
+    /// `<console::Style as Clone>::clone` for the harnesses, none of which configures a styled placeholder: the only
+    /// styles ever cloned are attribute-less `Style::new()` values (format_bar's default, apply_to), whose clone is
+    /// `Style::new()`. Saves CBMC the B-tree clone machinery (~1000 loop unwindings per format_state call).
+    pub(crate) fn plain_style_clone(_s: &console::Style) -> console::Style {
+        console::Style::new()
     }
 
     /// Build an `Instant` from (secs, nanos). Layout (Linux): Instant{ Timespec{ tv_sec: i64, tv_nsec: u32 } }.
